@@ -14,6 +14,7 @@ print(f"""You are helping evaluate a verification effort for minekube/gate (a Go
 
 Toolchain (no network; every shell call needs this, env is not kept between calls):
   export GOFLAGS=-mod=mod GOPROXY=off GOSUMDB=off GOTOOLCHAIN=local PATH=/opt/veriftools/go1.26.8/bin:$PATH
+Do NOT use `git stash` (the stash is shared between worktrees; other agents work in sibling worktrees); use `git diff > file`, `git apply`, `git apply -R`.
 Always run tests with short timeouts, e.g. `timeout 600 go test -vet=off -count=1 -timeout 120s ./pkg/...`.
 
 Here is a semantic property that the code is supposed to satisfy:
